@@ -13,8 +13,13 @@ import Iodata.Gen.Effects
 namespace Iodata.Props.C16
 open Iodata.Effects
 
-/-- reviewed global-rooted sites that are not modifications of a module-level table: none -/
-def allowed : List (String × String × String × String) := []
+/-- Reviewed global-rooted sites that are not modifications of a module-level table:
+* `shell.kinds[0] = "p"` in `molden._load_low`: `shell` iterates over `obasis.shells`, the list of fresh
+  `Shell` objects built by `_load_helper_obasis`; the analysis marks every member of the new
+  `MolecularBasis(shells, CONVENTIONS, …)` object as possibly aliasing the module table because one
+  constructor argument is that table (only `.conventions` does). -/
+def allowed : List (String × String × String × String) :=
+  [ ("iodata.formats.molden", "_load_low", "store-subscript", "shell.kinds[0]") ]
 
 /-- 1. No function of the package stores into, mutates in place, or calls a mutating method on a
 module-level table (periodic table, bond types, convention dictionaries, registries, constants). -/
